@@ -241,3 +241,10 @@ def run(ctx, rep) -> None:
     rep.rule("C02.10", "the step count the phase switch and the bias corrections read is the number of group steps taken: a counted step runs the group step; restoring a checkpoint copies into the tensors the step reads (the counter included), never replaces them")
     rep.attempt("_step_counter", _step_counter, ctx, _Proxy(rep, "C01.4", "C02.10"))
     rep.attempt("in_place_loading", in_place_loading, ctx, rep, "C02.10")
+    from .common import gradients_are_inputs
+
+    rep.attempt("gradients_are_inputs", gradients_are_inputs, ctx, rep, "C02.4")
+    from .c04 import global_selector_is_ownership_independent
+
+    rep.attempt("global_selector", global_selector_is_ownership_independent, ctx, rep, "C02.8")
+
